@@ -704,7 +704,7 @@ fn gen_entry(rng: &mut Rng) -> String {
 		0..=5 => gen_request(rng, true),
 		6 => format!("{{\"jsonrpc\":\"2.0\",\"method\":\"{}\"}}", gen_method(rng).replace(['"', '\\'], "")),
 		7 => format!("{{\"id\":{}}}", gen_id(rng).spell(rng)),
-		8 => (*rng.pick(&["1", "null", "\"x\"", "[]", "[1]", "{}", "true"])).to_string(),
+		8 => (*rng.pick(&["1", "null", "\"x\"", "[]", "[1]", "{}", "true", "{\"foo\":\"bar\"}", "{\"jsonrpc\":\"2.0\",\"method\":1}", "{\"jsonrpc\":\"2.0\",\"id\":7,\"method\":1}", "{\"method\":\"echo\"}", "{\"jsonrpc\":\"1.0\",\"id\":\"x\",\"method\":\"echo\"}"])).to_string(),
 		9 => format!("{{\"jsonrpc\":\"2.0\",\"id\":1,\"method\":\"echo\",\"params\":[{}]}}", rng.below(10)),
 		10 => format!("{{\"jsonrpc\":\"2.0\",\"id\":{},\"method\":\"{}\"}}", rng.below(3), *rng.pick(&["sub", "unsub", "echo"])),
 		_ => {
@@ -763,6 +763,13 @@ fn sentinel(n: u64) -> String {
 fn gen_c01(rng: &mut Rng, n: u64, lines: &mut Vec<String>) {
 	let mut cn = 0;
 	let mut left = n;
+	// boundary messages first: empty, whitespace-only (inside and beyond the sniffing window), window edges
+	lines.push("case 0 srv 100000 100000 u".into());
+	let call = "{\"jsonrpc\":\"2.0\",\"id\":1,\"method\":\"echo\",\"params\":[1]}";
+	for m in ["".to_string(), " ".into(), "\n\t\r ".into(), "\u{c}".into(), " ".repeat(127), " ".repeat(128), " ".repeat(129), format!("{}{call}", " ".repeat(126)), format!("{}{call}", " ".repeat(127)), format!("{}{call}", " ".repeat(128)), format!("\u{c}{call}"), format!(" \u{c}\n{call}"), format!("\u{c}[{call}]"), format!("{call} "), format!("{call}\u{c}"), format!("{call}{call}")] {
+		lines.push(format!("msg {}", hexs(&m)));
+	}
+	lines.push(sentinel(0));
 	while left > 0 {
 		cn += 1;
 		lines.push(format!("case {cn} srv 100000 100000 {}", batch_cfg(rng)));
@@ -844,6 +851,16 @@ fn gen_c08(rng: &mut Rng, n: u64, lines: &mut Vec<String>) {
 		}
 		lines.push(format!("msg {}", hexs(&format!("{{\"jsonrpc\":\"2.0\",\"id\":{id},\"method\":\"fail\",\"params\":[{}]}}", "1,".repeat(rng.below(20) as usize) + "1"))));
 		lines.push(format!("msg {}", hexs(&format!("{{\"jsonrpc\":\"2.0\",\"id\":{id},\"method\":\"esc\"}}"))));
+		// one-entry batches (alone / between notifications) whose array is exactly limit-1 .. limit+2 bytes:
+		// array = 2 + reply, reply = 33 + |id| + |payload|
+		for delta in -1i64..=2 {
+			let want = limit as i64 + delta - 2 - fixed;
+			if want >= 2 {
+				let e = echo_call(&id, &format!("\"{}\"", "c".repeat((want - 2) as usize)));
+				lines.push(format!("msg {}", hexs(&format!("[{e}]"))));
+				lines.push(format!("msg {}", hexs(&format!("[{{\"jsonrpc\":\"2.0\",\"method\":\"echo\"}},{e},{{\"jsonrpc\":\"2.0\",\"method\":\"esc\"}}]"))));
+			}
+		}
 		// batches whose running total crosses the limit at every entry position
 		let m = rng.range(1, 6);
 		let es: Vec<String> = (0..m).map(|j| echo_call(&j.to_string(), &format!("\"{}\"", "b".repeat(rng.below(40) as usize)))).collect();
